@@ -25,7 +25,6 @@ from __future__ import annotations
 import copy
 import itertools
 import json
-import math
 import pickle
 import warnings
 
@@ -49,7 +48,11 @@ ASSUMPTIONS = [
     "empty sequences / views are exempt from coordinate comparisons (as in C01)",
     "new-style Sequence.to_rich_dict / SequenceCollection.to_rich_dict document that the annotation db is not serialised: features are compared for pickle / deepcopy only on new-style objects",
     "likelihood functions: lnL and parameter values are compared with an absolute tolerance of 1e-9, everything else exactly (json floats round-trip exactly in CPython)",
-    "states whose producing operation already disagrees with the owning property's model (C01 / C03 / C04 findings) are not entered",
+    "states whose producing operation already disagrees with the owning property's model (C01 / C03 / C04 findings; new-style collections lose rc() in later operations) are not entered - counted as states_not_entered_owning_property_disagrees",
+    "a view that carries no seqid (None, after a re-basing conversion) is taken to refer to its own sequence name",
+    "trees: names the library generates for unnamed nodes (edge.N) are free; names given by the user must stay on the node with the same tips; newick text is an additional channel",
+    "a failure of a likelihood function that its model's freshly constructed function shows too is classed by model family, otherwise by the state (differential classification, as in C17)",
+    "one defect seen through json / rich dict / from_rich_dict (shared code) or through pickle / deepcopy (shared __reduce_ex__) is reported once per state, under the first channel showing it",
     "the rich-dict channel hands to_rich_dict() directly to deserialise_object (documented to accept a dict)",
     "the library's process-wide lost-span cache (cogent3.core.location._lost_span_cache) is emptied at the start of every shard so that verdicts do not depend on shard order; "
     "the situation 'an alignment's gap map was turned into a feature map earlier in the process' is entered deliberately as a state class of the FeatureMap part",
@@ -64,7 +67,7 @@ def bounds(tier):
     return {
         "quick": {
             "views": {"max_parent_len": 3, "depth": 2, "steps": [1, 2, -1, -2], "offsets": [0, 3]},
-            "alignments": {"rows": 2, "deep_len": 2, "deep_depth": 2, "shallow_len": 3, "shallow_depth": 0, "moltypes": ["dna"], "ops": "views"},
+            "alignments": {"rows": 2, "configs (moltype, columns, depth, operations)": [["dna", 1, 2, "views"], ["dna", 2, 2, "views"], ["dna", 3, 0, "views"]]},
             "new_collections": {"max_len": 3, "depth": 2},
             "annotated": {"L": 4, "depth": 2, "steps": [1, 2], "offsets": [0, 3], "aln_len": 2},
             "annotation_dbs": {"depth": 1},
@@ -75,7 +78,8 @@ def bounds(tier):
         },
         "thorough": {
             "views": {"max_parent_len": 5, "depth": 2, "deep_parent_len": 3, "deep_depth": 3, "steps": [1, 2, 3, -1, -2, -3], "offsets": [0, 3]},
-            "alignments": {"rows": 2, "deep_len": 3, "deep_depth": 2, "shallow_len": 4, "shallow_depth": 1, "moltypes": ["dna", "rna", "protein"]},
+            "alignments": {"rows": 2, "configs (moltype, columns, depth, operations)": [["dna", 1, 2, "all"], ["dna", 2, 2, "all"], ["dna", 3, 2, "views"], ["dna", 3, 1, "all"],
+                                                                                          ["dna", 4, 0, "views"], ["rna", 2, 2, "views"], ["protein", 2, 2, "views"]]},
             "new_collections": {"max_len": 4, "depth": 3},
             "annotated": {"L": 6, "depth": 2, "steps": [1, 2, 3], "offsets": [0, 3], "aln_len": 3},
             "annotation_dbs": {"depth": 2},
@@ -586,14 +590,13 @@ def aln_ops(m, which):
 
 def alns_shards(b):
     out = []
-    for mol in b["moltypes"]:
-        nrows = b["rows"]
-        for L in range(1, b["shallow_len"] + 1):
-            depth = b["deep_depth"] if L <= b["deep_len"] else b["shallow_depth"]
-            n = len(list(c3.initial_rows(mol, nrows, L)))
-            nchunks = max(1, min(n, (n * (16 if depth > 1 else 2)) // 8))
-            for c in range(nchunks):
-                out.append({"part": "alignments", "mol": mol, "nrows": nrows, "L": L, "depth": depth, "chunk": c, "of": nchunks, "ops": b.get("ops", "all")})
+    nrows = b["rows"]
+    for mol, L, depth, ops in b["configs (moltype, columns, depth, operations)"]:
+        n = len(list(c3.initial_rows(mol, nrows, L)))
+        nchunks = max(1, min(n, {0: n // 64, 1: n // 4, 2: n}[depth] * (2 if ops == "all" and depth else 1)))
+        nchunks = min(nchunks, n)
+        for c in range(nchunks):
+            out.append({"part": "alignments", "mol": mol, "nrows": nrows, "L": L, "depth": depth, "chunk": c, "of": nchunks, "ops": ops})
     return out
 
 
@@ -810,16 +813,6 @@ def observe_annotated(impl, with_features_in_dicts):
 
     f.per_channel = True
     return f
-
-
-def annot_view_class(v, attach):
-    f = ["reversed view" if v.rev else ("whole parent, forward" if len(v.idx) == c4_len(v) else "sliced, forward")]
-    f.append("features via " + attach)
-    return ", ".join(f)
-
-
-def c4_len(v):
-    return getattr(v, "_plen", len(v.idx))
 
 
 def check_annot_state(seq, v, impl, attach, case, acc):
@@ -1199,12 +1192,6 @@ def maps_replay(case, acc):
 # ============================================================================= part: trees (shapes and operations of C09)
 from vf.models import treegraph as tg  # noqa: E402
 from vf.props import c09_trees as c9  # noqa: E402
-
-
-def tree_channels_extra(t):
-    from cogent3 import make_tree
-
-    return [("newick", lambda x: make_tree(x.get_newick(with_distances=True, with_node_names=True)))]
 
 
 def _clades(t):
@@ -2101,11 +2088,17 @@ def replay(case):
 
 
 LEVEL_TEXT = (
-    "Explicit-state model checking by state-graph reuse: the reachable states of the view, alignment, annotation, annotation-db, tree and "
-    "likelihood-function drivers are re-enumerated at small bounds and in each of them the object is serialised and deserialised through every "
-    "channel it offers; the result is compared, observation by observation, with the original."
+    "Explicit-state model checking by state-graph reuse: the reachable states of the view (C01), alignment (C03), annotation (C04), annotation-db (C17), "
+    "tree (C09 operations) and likelihood-function (C07 controller) drivers are re-enumerated completely at small bounds - every history of their operation "
+    "alphabets up to the depth bound, de-duplicated on their canonical keys - and in each state the object is serialised and deserialised through every channel "
+    "it offers (json, rich dict, from_rich_dict, pickle, deepcopy; newick for trees); the result is compared, observation by observation, with the original, and the "
+    "json round trip is required to be idempotent. Every gap layout / span list for the map classes and a static list of every registered type (alphabets, molecular "
+    "types, genetic codes, dict arrays, distance matrices, tables, all named substitution models, app results, NotCompleted) complete the registry. This is the right "
+    "level because the serialisers' defects depend on the history that produced the object (offsets, strand, gap maps, parameter scopes, process-wide caches), which only "
+    "state enumeration reaches."
 )
 LEVEL_NOTE = (
-    "Trusted: the owning drivers' models (only used to reach and name states), CPython json / pickle. Observational equality on the listed "
-    "observations only; objects are as small as in the owning drivers."
+    "Trusted: the owning drivers' models (used only to reach and name states; the oracle is the original object itself), CPython json / pickle / copy. Observational "
+    "equality on the observations listed in ASSUMPTIONS only; objects are as small as in the owning drivers; app results and multi-locus / rate-heterogeneity likelihood "
+    "functions are limited to the static list; nothing is claimed above the bounds recorded in the evidence file."
 )
